@@ -329,6 +329,22 @@ fn old_wait_count(w: &World) -> usize {
         cosmwasm_storage::ReadonlyBucket::multilevel(&st, &[b"wait"]);
     old.range(None, None, cosmwasm_std::Order::Ascending).count()
 }
+/// batch ids of the legacy wait-list entries (trailing decimal digits of the storage keys)
+fn old_wait_batches(w: &World) -> Vec<u64> {
+    if !w.inst[HUB] {
+        return vec![];
+    }
+    let st = StoreRef::new(w, HUB);
+    let old: cosmwasm_storage::ReadonlyBucket<Uint128> =
+        cosmwasm_storage::ReadonlyBucket::multilevel(&st, &[b"wait"]);
+    old.range(None, None, cosmwasm_std::Order::Ascending)
+        .filter_map(|r| r.ok())
+        .map(|(k, _)| {
+            let digits: Vec<u8> = k.iter().rev().take_while(|b| b.is_ascii_digit()).cloned().collect();
+            digits.iter().rev().fold(0u64, |a, d| a * 10 + (*d - b'0') as u64)
+        })
+        .collect()
+}
 fn disp_swap_denoms(w: &World) -> Vec<String> {
     if !w.inst[DISP] {
         return vec![];
@@ -1462,7 +1478,28 @@ impl<'a, A: Write, B: Write> Gen<'a, A, B> {
         if self.r.pct(p_write) {
             Op::LegacyWait {
                 addr: s(USERS[self.r.below(8) as usize]),
-                batch: self.r.range(1, 9),
+                // the storage orders entries by the DECIMAL STRING of the batch id, the model by its value:
+                // a history uses either the ids 1..9 or the ids 1, 10..19 (one key a prefix of the
+                // others) - within each set the two orders agree (PROTOCOL.md 3.1)
+                batch: {
+                    let have = old_wait_batches(self.w());
+                    let two_digit = if have.iter().any(|b| *b >= 10) {
+                        true
+                    } else if have.iter().any(|b| *b >= 2) {
+                        false
+                    } else {
+                        self.r.pct(30)
+                    };
+                    if two_digit {
+                        if self.r.pct(25) {
+                            1
+                        } else {
+                            self.r.range(10, 19)
+                        }
+                    } else {
+                        self.r.range(1, 9)
+                    }
+                },
                 // zero-amount entries exist too (a request eaten by the peg fee)
                 amt: if self.r.pct(15) { 0 } else { self.log_uniform(1, 100_000) },
             }
@@ -1697,6 +1734,49 @@ impl<'a, A: Write, B: Write> Gen<'a, A, B> {
     // ---- history ------------------------------------------------------------------------------
 
     fn sample(&mut self, f: Fam) -> Op {
+        let op = self.sample_plain(f);
+        self.maybe_attach_funds(op)
+    }
+
+    /// 4 % of the non-bond transactions carry coins on their root message (none of the contracts'
+    /// messages rejects attached coins; they land on the target's bank account before it executes):
+    /// one coin (85 %) or two, mostly a balance the sender can pay, sometimes more than it holds
+    fn maybe_attach_funds(&mut self, op: Op) -> Op {
+        let sender = match &op {
+            Op::Hub { sender, .. }
+            | Op::Cw { sender, .. }
+            | Op::Reward { sender, .. }
+            | Op::Disp { sender, .. }
+            | Op::Reg { sender, .. } => sender.clone(),
+            _ => return op,
+        };
+        if !self.r.pct(4) {
+            return op;
+        }
+        let n = if self.r.pct(85) { 1 } else { 2 };
+        let mut coins: Vec<(String, u128)> = Vec::new();
+        for _ in 0..n {
+            let denom = match self.r.range(0, 99) {
+                0..=59 => "usei",
+                60..=84 => "uusd",
+                85..=94 => "uAtom",
+                _ => "ujunk",
+            };
+            let have = self.w().balance(&sender, denom);
+            let amt = match self.r.range(0, 99) {
+                0..=24 => 1,
+                25..=39 => 2,
+                40..=54 => 1000,
+                55..=74 => (have / 10).max(1),
+                75..=89 => have.max(1),
+                _ => have.saturating_add(1),
+            };
+            coins.push((s(denom), amt));
+        }
+        Op::WithFunds { coins, inner: Box::new(op) }
+    }
+
+    fn sample_plain(&mut self, f: Fam) -> Op {
         match f {
             Bond => self.f_bond(),
             Unbond => self.f_unbond(),
